@@ -244,6 +244,7 @@ void Executor::op_file(const Op& op, TaskCtx& t) {
       int st1 = s.optimize(nullptr), st2 = w.optimize(nullptr);
       double ov1 = st1 == sut::ST_OPTIMAL ? s.objValue() - s.getReal(P::r("obj_offset")) : 0, ov2 = st2 == sut::ST_OPTIMAL ? w.objValue() - w.getReal(P::r("obj_offset")) : 0;
       if (op.geti("strict", 1) == 0) { if (!(st1 == sut::ST_OPTIMAL || st1 == sut::ST_INFEASIBLE || st1 == sut::ST_UNBOUNDED || st1 == sut::ST_INForUNBD || st1 == sut::ST_ABORT_ITER || st1 == sut::ST_ABORT_TIME || st1 == sut::ST_ABORT_VALUE || st1 == sut::ST_ABORT_CYCLING || st1 == sut::ST_SINGULAR)) viol("C13", "object_unusable_after_read", std::string("after loading faulted settings the object cannot solve a good LP: ") + sut::status_name(st1)); }
+      else if (st1 == sut::ST_ABORT_CYCLING || st1 == sut::ST_SINGULAR || st2 == sut::ST_ABORT_CYCLING || st2 == sut::ST_SINGULAR) count("post_solver_gave_up");
       else if (st1 != st2 || (st1 == sut::ST_OPTIMAL && fabs(ov1 - ov2) > 1e-6 * (1 + fabs(ov2)))) {
         std::ostringstream d; d << "after the faulted read the object solves the good LP to " << sut::status_name(st1) << " " << (st1 == sut::ST_OPTIMAL ? dstr(s.objValue()) : "") << ", a fresh object to " << sut::status_name(st2) << " " << (st2 == sut::ST_OPTIMAL ? dstr(w.objValue()) : "");
         viol("C13", "object_unusable_after_read", d.str());
@@ -294,7 +295,7 @@ void Executor::op_file(const Op& op, TaskCtx& t) {
       if (r1 != r2 || (r1 == 1 && (whole.rows != chunked.rows || whole.cols != chunked.cols || whole.nnz != chunked.nnz)))
         viol("C12", "chunking_changes_result", "reading the same bytes in chunks of " + op.get("chunk", "1") + " gives a different result than reading them at once");
     }
-    if (r2 == 1 && !chunked.consistent) viol("C13", chunked.why.find("name sets") != std::string::npos ? "names_do_not_match_dimensions" : "inconsistent_lp_after_read", "stream read: " + chunked.why);
+    if (r2 == 1 && !chunked.consistent) viol("C13", chunked.why.find("name sets") != std::string::npos ? "names_do_not_match_dimensions" : chunked.why.find("duplicate") != std::string::npos ? "duplicate_entry_accepted" : "inconsistent_lp_after_read", "stream read: " + chunked.why);
     return;
   }
   if (what == "basrt" || what == "statert") {
